@@ -239,30 +239,7 @@ def handoffs(ctx):
               Rv.post('pwr_out_propulsion'), E.post('pwr_elec_prop_in'))
         dt_pass(ctx, an, b)
     ctx.floor('loco-type hand-off functions', n, 2)
-    # Locomotive: state.pwr_out = edrv.pwr_mech_prop_out - edrv.pwr_mech_dyn_brake for the electric-drive variants
-    nl = 0
-    for b in inv.writers('LocomotiveState', 'pwr_out'):
-        if is_raw_setter(b):
-            continue
-        an = analysis_or_fail(ctx, 'C01-3.handoff', b)
-        if an is None:
-            continue
-        pt = prog.typedef('PowertrainType')
-        sv = StateView(an, locate(ctx, b, 'LocomotiveState') or (('f', 'state'),))
-        post = sv.post('pwr_out').t
-        for var in pt.variants:
-            if var['name'] in ('DummyLoco',):
-                continue
-            if var['name'] == 'HybridLoco':
-                continue
-            nl += 1
-            idx = var['idx']
-            arm = select(post, lambda d: d[0] == 'discr', idx)
-            base = (('obj', 1), ('f', 'loco_type'), ('as', var['name']), ('f', '#0'), ('f', 'edrv'), ('f', 'state'))
-            mech = select(an.load(base + (('f', 'pwr_mech_prop_out'),), an.exit_state), lambda d: d[0] == 'discr', idx)
-            dyn = select(an.load(base + (('f', 'pwr_mech_dyn_brake'),), an.exit_state), lambda d: d[0] == 'discr', idx)
-            prove(ctx, 'C01-3.handoff', '%s|pwr_out arm %s' % (b.fid, var['name']), an, 'eq', T(arm), T(mech) - T(dyn))
-    ctx.floor('locomotive pwr_out arms', nl, 2)
+    loco_pwr_out_arms(ctx, 'C01-3.handoff')
 
 
 def dt_pass(ctx, an, b):
@@ -371,3 +348,34 @@ def _is_loco_vec_value(base):
         if x[0] == 'pre' and x[1] == (('obj', 1), ('f', 'loco_vec')):
             return True
     return False
+
+
+def loco_pwr_out_arms(ctx, rule):
+    """Locomotive: state.pwr_out = edrv.pwr_mech_prop_out - edrv.pwr_mech_dyn_brake for the electric-drive variants (the wheel
+    power a locomotive reports is what its drivetrain delivered: traction minus dynamic braking)"""
+    prog = ctx.prog
+    inv = inventory(ctx)
+    # Locomotive: state.pwr_out = edrv.pwr_mech_prop_out - edrv.pwr_mech_dyn_brake for the electric-drive variants
+    nl = 0
+    for b in inv.writers('LocomotiveState', 'pwr_out'):
+        if is_raw_setter(b):
+            continue
+        an = analysis_or_fail(ctx, rule, b)
+        if an is None:
+            continue
+        pt = prog.typedef('PowertrainType')
+        sv = StateView(an, locate(ctx, b, 'LocomotiveState') or (('f', 'state'),))
+        post = sv.post('pwr_out').t
+        for var in pt.variants:
+            if var['name'] in ('DummyLoco',):
+                continue
+            if var['name'] == 'HybridLoco':
+                continue
+            nl += 1
+            idx = var['idx']
+            arm = select(post, lambda d: d[0] == 'discr', idx)
+            base = (('obj', 1), ('f', 'loco_type'), ('as', var['name']), ('f', '#0'), ('f', 'edrv'), ('f', 'state'))
+            mech = select(an.load(base + (('f', 'pwr_mech_prop_out'),), an.exit_state), lambda d: d[0] == 'discr', idx)
+            dyn = select(an.load(base + (('f', 'pwr_mech_dyn_brake'),), an.exit_state), lambda d: d[0] == 'discr', idx)
+            prove(ctx, rule, '%s|pwr_out arm %s' % (b.fid, var['name']), an, 'eq', T(arm), T(mech) - T(dyn))
+    ctx.floor('locomotive pwr_out arms', nl, 2)
